@@ -64,9 +64,19 @@ func main() {
 		if err != nil {
 			die("parse error: %v", err)
 		}
-		u := &unit{Spec: sp, File: file, Dir: filepath.Dir(sp.GoFile), Imports: map[string]string{}, Deps: map[string]bool{}, Consts: map[string]ast.Expr{},
+		u := &unit{Spec: sp, File: file, Dir: filepath.Dir(sp.GoFile), Imports: map[string]string{}, Deps: map[string]bool{}, Consts: map[string]ast.Expr{}, PkgVars: map[string]ast.Expr{},
 			Sha: fmt.Sprintf("%x", sha256.Sum256(src)), SrcLines: strings.Count(string(src), "\n")}
 		for _, d := range file.Decls {
+			if gd, ok := d.(*ast.GenDecl); ok && gd.Tok == token.VAR {
+				for _, sp := range gd.Specs {
+					vs := sp.(*ast.ValueSpec)
+					if len(vs.Names) == len(vs.Values) {
+						for i, n := range vs.Names {
+							u.PkgVars[n.Name] = vs.Values[i]
+						}
+					}
+				}
+			}
 			if gd, ok := d.(*ast.GenDecl); ok && gd.Tok == token.CONST {
 				for _, sp := range gd.Specs {
 					vs := sp.(*ast.ValueSpec)
@@ -106,6 +116,7 @@ func main() {
 				if t.guard(func() { t.translateFunc(fi) }) {
 					u.Funcs = append(u.Funcs, fi)
 				} else {
+					t.errs[len(t.errs)-1] += " [in function " + fi.Name + " of " + u.Spec.GoFile + "]"
 					fi.text = "(* refused *)"
 				}
 			}
@@ -194,9 +205,6 @@ func (t *translator) collectStructs() {
 					t.unsupported(ts.Pos(), "type declaration %s that is not a struct", ts.Name.Name)
 				}
 				s := &structInfo{Name: ts.Name.Name, Dir: u.Dir, Unit: u, pos: ts.Pos()}
-				if len(typeParamNames(ts.TypeParams)) > 1 {
-					t.unsupported(ts.Pos(), "struct %s with more than one type parameter", s.Name)
-				}
 				t.structs = append(t.structs, s)
 				u.Structs = append(u.Structs, s)
 				todo = append(todo, pending{s, st, tctx{u, typeParamNames(ts.TypeParams)}})
@@ -259,6 +267,17 @@ func (t *translator) absField(name string, e ast.Expr, c tctx, as absSpec) *absI
 	a := &absIface{Field: name, Dir: dir, Type: sel.Sel.Name, Pure: map[string]bool{}, Methods: map[string]*funcInfo{}, pos: e.Pos()}
 	for _, p := range as.Pure {
 		a.Pure[p] = true
+	}
+	if as.Methods != nil {
+		a.Fixed, a.filling = true, true
+		for _, n := range as.Methods {
+			if strings.HasPrefix(n, "pkg.") {
+				t.absFunc(a, strings.TrimPrefix(n, "pkg."), true, e.Pos())
+			} else {
+				t.absFunc(a, n, false, e.Pos())
+			}
+		}
+		a.filling = false
 	}
 	return a
 }
@@ -378,6 +397,36 @@ func (t *translator) sameRecvCallee(fi *funcInfo, c *ast.CallExpr) *funcInfo {
 	return nil
 }
 
+// for it.Next() where `it := <expr>.Iterator()` is defined in the same body: a loop over a finite enumeration
+func isIteratorLoop(body *ast.BlockStmt, loop *ast.ForStmt) bool {
+	c, ok := loop.Cond.(*ast.CallExpr)
+	if !ok || len(c.Args) != 0 {
+		return false
+	}
+	sel, ok := c.Fun.(*ast.SelectorExpr)
+	if !ok || sel.Sel.Name != "Next" {
+		return false
+	}
+	id, ok := sel.X.(*ast.Ident)
+	if !ok {
+		return false
+	}
+	found := false
+	ast.Inspect(body, func(n ast.Node) bool {
+		if as, ok := n.(*ast.AssignStmt); ok && as.Tok == token.DEFINE && len(as.Lhs) == 1 && len(as.Rhs) == 1 {
+			if l, ok := as.Lhs[0].(*ast.Ident); ok && l.Name == id.Name {
+				if rc, ok := as.Rhs[0].(*ast.CallExpr); ok && len(rc.Args) == 0 {
+					if rs, ok := rc.Fun.(*ast.SelectorExpr); ok && rs.Sel.Name == "Iterator" {
+						found = true
+					}
+				}
+			}
+		}
+		return true
+	})
+	return found
+}
+
 func rootIdent(x ast.Expr) string {
 	for {
 		switch y := x.(type) {
@@ -390,6 +439,8 @@ func rootIdent(x ast.Expr) string {
 		case *ast.ParenExpr:
 			x = y.X
 		case *ast.StarExpr:
+			x = y.X
+		case *ast.SliceExpr:
 			x = y.X
 		default:
 			return ""
@@ -419,12 +470,18 @@ func (t *translator) analyse() {
 					fi.Writes = true
 				}
 			case *ast.ForStmt:
-				if x.Init == nil && x.Post == nil {
+				if x.Init == nil && x.Post == nil && !isIteratorLoop(fi.Decl.Body, x) {
 					fi.Fuel, fi.Partial = true, true
 				}
 			case *ast.CallExpr:
 				if id, ok := x.Fun.(*ast.Ident); ok && id.Name == "panic" {
 					fi.Partial = true
+				}
+				// builtins that modify their first argument in place: delete(m, k), clear(x), copy(dst, src)
+				if id, ok := x.Fun.(*ast.Ident); ok && (id.Name == "delete" || id.Name == "clear" || id.Name == "copy") && len(x.Args) > 0 {
+					if _, plain := x.Args[0].(*ast.Ident); !plain && fi.Recv != nil && rootIdent(x.Args[0]) == fi.RecvName {
+						fi.Writes = true
+					}
 				}
 				if c := t.sameRecvCallee(fi, x); c != nil {
 					fi.callees = append(fi.callees, c)
@@ -595,6 +652,9 @@ func (t *translator) emit(u *unit) string {
 	for _, d := range deps {
 		fmt.Fprintf(&b, "From GodsGen Require %s.\n", d)
 	}
+	if u.UsesMap {
+		fmt.Fprintf(&b, "From GodsGenProofs Require GoMap. (* hand-written: Go maps as canonical association lists, /verif/srcgen/coq/GoMap.v *)\n")
+	}
 	if u.Spec.CapSlices {
 		fmt.Fprintf(&b, "From GodsGenProofs Require GoSlice. (* hand-written: slices with capacity, /verif/srcgen/coq/GoSlice.v *)\n")
 	}
@@ -618,6 +678,9 @@ func (t *translator) emit(u *unit) string {
 		for _, n := range ns {
 			fi := a.Methods[n]
 			parts := []string{a.Field + "_T"}
+			if fi.Static {
+				parts = nil
+			}
 			for _, p := range fi.Params {
 				parts = append(parts, t.coqType(p.Ty, u))
 			}
@@ -626,16 +689,25 @@ func (t *translator) emit(u *unit) string {
 				rs = append(rs, r.Ty)
 			}
 			res := t.resultType(rs, u)
+			if len(rs) == 1 && rs[0].K == kAbs {
+				res = a.Field + "_T"
+			}
+			if fi.Name == "Iterator" && fi.Coq == a.Field+"_Iterator_enum" {
+				res = "Datatypes.list (Z * Z)"
+			}
 			if fi.Writes {
 				res = "(" + a.Field + "_T * " + res + ")"
 			}
 			parts = append(parts, res)
-			fmt.Fprintf(&b, ";\n  %s_%s : %s", a.Field, n, strings.Join(parts, " -> "))
+			fmt.Fprintf(&b, ";\n  %s : %s", fi.Coq, strings.Join(parts, " -> "))
 		}
 		fmt.Fprintf(&b, " }.\n\n")
 	}
 	if u.UsesRT {
 		fmt.Fprintf(&b, "(* the capacity the Go runtime gives to a slice it allocates for n elements (slices.Clone, a reallocating\n   append / slices.Insert) is implementation-defined: a parameter *)\nSection Runtime.\nVariable alloc_cap : Z -> Z.\n\n")
+	}
+	if u.UsesMO {
+		fmt.Fprintf(&b, "(* the order in which `range` visits a map is unspecified: a parameter (any enumeration of the entries) *)\nSection MapOrder.\nVariable map_order : GoMap.gmap -> Datatypes.list (Z * Z).\n\n")
 	}
 	if len(u.Abs) > 0 {
 		fmt.Fprintf(&b, "Section Wrapped.\n")
@@ -644,13 +716,28 @@ func (t *translator) emit(u *unit) string {
 		}
 		b.WriteString("\n")
 	}
+	if len(u.IterEnums) > 0 {
+		fmt.Fprintf(&b, "(* x.Iterator() / for it.Next(): the iterator is the abstract enumeration of the (index-or-key, value) pairs\n   of the container (what Machine.each_of / the C08 cursor say it walks): a parameter *)\nSection Iterators.\n\n")
+	}
 	b.WriteString(recs.String())
+	for _, s := range u.IterEnums {
+		fmt.Fprintf(&b, "Variable %s_Iterator_enum : %s -> Datatypes.list (Z * Z).\n", s.Name, mangle(s.Name))
+	}
+	if len(u.IterEnums) > 0 {
+		b.WriteString("\n")
+	}
 	for _, fi := range u.Funcs {
 		b.WriteString(fi.text)
 		b.WriteString("\n")
 	}
+	if len(u.IterEnums) > 0 {
+		fmt.Fprintf(&b, "End Iterators.\n\n")
+	}
 	if len(u.Abs) > 0 {
 		fmt.Fprintf(&b, "End Wrapped.\n\n")
+	}
+	if u.UsesMO {
+		fmt.Fprintf(&b, "End MapOrder.\n\n")
 	}
 	if u.UsesRT {
 		fmt.Fprintf(&b, "End Runtime.\n\n")
